@@ -211,8 +211,8 @@ def cases(rng, tier):
         out.append(make(rng, tier, tied_stratum=['cacgmm', 'cwmm', 'gmm', 'gcacgmm'][i % 4]))
     for i in range(3 if tier == 'quick' else 12):
         out.append(make(rng, tier, offset=True))
-    for i in range(3 if tier == 'quick' else 9):
-        out.append(make(rng, tier, reuse_dim=['cwmm', 'cacgmm', 'gmm'][i % 3]))
+    for i in range(6 if tier == 'quick' else 12):
+        out.append(make(rng, tier, reuse_dim=['cwmm', 'cacgmm', 'gmm', 'cwmm', 'cwmm', 'cwmm'][i % 6]))
     for i in range(5 if tier == 'quick' else 20):
         out.append(make(rng, tier, int_start=['gmm', 'gmm', 'cacgmm', 'gmm', 'cwmm'][i % 5]))
     for i in range(4 if tier == 'quick' else 15):
